@@ -29,6 +29,25 @@ def table_sorted():
     # separator keys stated against the search boundary (consequence of the two axioms above)
     A("(forall ((X Int) (a %s) (k %s)) (! (=> %s (and (=> (and (bvslt %s k) (bvuge (tfirst (tree_of (pg X)) k) (p_lo (pg X)))) (bvuge (tfirst (tree_of (pg X)) k) (c_lo X (bvadd %s %s)))) (=> (and (bvsge %s k) (bvule (tfirst (tree_of (pg X)) k) (p_hi (pg X)))) (bvule (tfirst (tree_of (pg X)) k) (c_lo X (bvadd %s %s)))))) :pattern (%s (tfirst (tree_of (pg X)) k))))"%(W,W,inrange(TI,"a"),key,rel(TI,"a"),ONE,key,rel(TI,"a"),ONE,cell))
     A("(forall ((t %s) (k %s)) (! (and (=> (bvult (tfirst t k) (p_hi t)) (bvsge (tb_rowid t (tfirst t k)) k)) (=> (bvugt (tfirst t k) (p_lo t)) (bvslt (tb_rowid t (bvsub (tfirst t k) %s)) k))) :pattern ((tfirst t k))))"%(W,W,ONE))
+IL="F_db_indexLeaf_cells"; ILE="FE_db_indexLeaf_cells"
+II="F_db_indexInterior_cells"; IIE="FE_db_indexInterior_cells"; IIR="F_db_indexInterior_rightmost"
+def index_tree():
+    A("(forall ((X Int)) (! (= (p_hi (pg X)) (bvadd (p_lo (pg X)) (s_len (%s X)))) :pattern ((%s X))))"%(IL,IL))
+    cell="(select (%s X) a)"%ILE
+    A("(forall ((X Int) (a %s)) (! (=> %s (= (ix_payload (tree_of (pg X)) (bvadd (p_lo (pg X)) %s)) %s)) :pattern (%s)))"%(W,inrange(IL,"a"),rel(IL,"a"),cell,cell))
+    A("(forall ((X Int)) (! (= (c_lo X %s) (p_lo (pg X))) :pattern ((%s X))))"%(Z,II))
+    cell="(select (%s X) a)"%IIE
+    child="(S_db_indexInteriorCell_0_left %s)"%cell
+    # child i occupies [c_lo(i), p_hi(child)); the interior entry i is the item at p_hi(child); next child starts after it
+    A("(forall ((X Int) (a %s)) (! (=> %s (and (= (p_lo %s) (c_lo X %s)) (= (ix_payload (tree_of (pg X)) (p_hi %s)) (S_db_indexInteriorCell_1_payload %s)) (= (c_lo X (bvadd %s %s)) (bvadd (p_hi %s) %s)) (= (tree_of %s) (tree_of (pg X))))) :pattern (%s)))"%(W,inrange(II,"a"),child,rel(II,"a"),child,cell,rel(II,"a"),ONE,child,ONE,child,cell))
+    A("(forall ((X Int)) (! (and (= (p_lo (%s X)) (c_lo X (s_len (%s X)))) (= (p_hi (%s X)) (p_hi (pg X))) (= (tree_of (%s X)) (tree_of (pg X)))) :pattern ((%s X))))"%(IIR,II,IIR,IIR,IIR))
+def index_sorted():
+    A("(forall ((p %s)) (! (and (bvule (p_lo (tree_of p)) (p_lo p)) (bvule (p_lo p) (p_hi p)) (bvule (p_hi p) (p_hi (tree_of p))) (bvule (p_hi (tree_of p)) #x0000ffffffffffff)) :pattern ((p_lo p)) :pattern ((p_hi p))))"%W)
+    A("(forall ((t %s) (k Slice)) (! (and (bvule (p_lo t) (ifirst t k)) (bvule (ifirst t k) (p_hi t))) :pattern ((ifirst t k))))"%W)
+    A("(forall ((t %s) (k Slice) (j %s)) (! (=> (and (bvule (p_lo t) j) (bvult j (p_hi t))) (= (bvult j (ifirst t k)) (not (srch k (ix_payload t j))))) :pattern ((ifirst t k) (ix_payload t j))))"%(W,W))
+    cell="(select (%s X) a)"%IIE
+    child="(S_db_indexInteriorCell_0_left %s)"%cell
+    A("(forall ((X Int) (a %s)) (! (=> %s (and (bvule (p_lo (pg X)) (c_lo X %s)) (bvule (c_lo X %s) (p_hi %s)) (bvult (p_hi %s) (c_lo X (bvadd %s %s))) (bvule (c_lo X (bvadd %s %s)) (p_hi (pg X))))) :pattern (%s)))"%(W,inrange(II,"a"),rel(II,"a"),rel(II,"a"),child,child,rel(II,"a"),ONE,rel(II,"a"),ONE,cell))
 import sys
 which=sys.argv[1]
 globals()[which]()
